@@ -343,10 +343,19 @@ class Synth:
                 return e
         return None
 
-    def leaf_for(self, carrier_obs, target_exp, plan):
+    def tok_key(self, xsd, carrier):
+        """Wire!TokKey: the token row of the XSD type where the table has one, else the carrier's"""
+        return xsd if xsd in self.tok else carrier
+
+    def leaf_for(self, carrier_obs, target_exp, plan, xsd=None):
         """literal for a leaf: the schema decides the lexical form, the observed carrier how it is written down"""
         carrier_exp = target_exp["rust"] if target_exp and target_exp.get("k") == "builtin" else carrier_obs
         tok = {"min": "lo", "max": "hi", "mix": "esc"}[plan]
+        key = self.tok_key(xsd, carrier_exp)
+        if key != carrier_exp and carrier_exp == carrier_obs:
+            return self.tok[key][tok]["lit"]
+        if key != carrier_exp and carrier_obs == "String":
+            return rs_str(self.tok[key][tok]["text"]) + ".to_string()"
         if carrier_exp == carrier_obs or carrier_exp not in self.tok:
             return self.leaf(carrier_obs, plan)
         if carrier_obs == "String":
@@ -390,7 +399,7 @@ class Synth:
             elif r is None:
                 inner = "Default::default()"
             elif r[0] == "builtin":
-                inner = self.leaf_for(r[1], tgt, plan)
+                inner = self.leaf_for(r[1], tgt, plan, (ef or {}).get("xsd") or ((exp.get("base") or {}).get("xsd") if exp and exp.get("kind") == "simple" else None))
             else:
                 child_exp = self.exp_struct(tgt["ns"], tgt["xml"]) if tgt and tgt.get("k") == "struct" else None
                 sub_force = force
@@ -493,7 +502,7 @@ pub fn fix(root: &str, plan: &str) -> Option<bool> {
             if e.get("facets") and e.get("valid") not in (None, "?"):
                 return f"{name} {{ value: {rs_str(e['valid'])}.to_string() }}"
             if b.get("k") == "builtin":
-                return f"{name} {{ value: {rs_str(self.tok[b['rust']][tok]['text'])}.to_string() }}"
+                return f"{name} {{ value: {rs_str(self.tok[self.tok_key(b.get('xsd'), b['rust'])][tok]['text'])}.to_string() }}"
             if b.get("k") == "struct":
                 inner = self.exp_struct(b["ns"], b["xml"])
                 if inner and inner["kind"] == "simple":
@@ -505,7 +514,7 @@ pub fn fix(root: &str, plan: &str) -> Option<bool> {
         for i, f in enumerate(e["fields"], 1):
             t = f["target"]
             if t["k"] == "builtin":
-                inner = self.tok[t["rust"]][tok]["lit"]
+                inner = self.tok[self.tok_key(f.get("xsd"), t["rust"])][tok]["lit"]
                 if f.get("xsd") in ("integer", "nonNegativeInteger", "positiveInteger", "nonPositiveInteger", "negativeInteger"):
                     inner = f"({inner}) as i64"
             elif t["k"] == "struct":
@@ -871,11 +880,85 @@ def run_pipeline(tier, mc_cases_fn):
             e.pop("xml", None) if "info" in e else None
             if cid in events:
                 events[cid].append(e)
+    stats["xsd_validator"] = xsd_validate(pipe, dump, vocab, by_id, drv, events) if drv else "no drivers"
     stats["wall_s"] = round(time.time() - t0, 1)
     stats["cache_hit"] = False
     ev2 = {str(k): v for k, v in events.items()}
     json.dump({"vocab": vocab, "cases": cases, "events": ev2, "stats": stats}, open(cpath, "w"))
     return vocab, cases, ev2, stats
+
+
+def find_xmllint():
+    for c in (shutil.which("xmllint"), "/root/miniconda/bin/xmllint", "/usr/bin/xmllint"):
+        if c and os.path.exists(c):
+            return c
+    return None
+
+
+def xsd_validate(pipe, dump, vocab, by_id, drv, events):
+    """An independent XSD implementation (libxml2's xmllint, when the image has it) judges every serialised document of
+    the schema-only cases.  The schema files are the concrete files the generator read, plus one global element
+    declaration per named type (a type has no root element of its own; the struct serialises under the type's name)."""
+    tool = find_xmllint()
+    if tool is None:
+        return "absent"
+    names = vocab.get("names", {})
+    uris = {k: r["uri"] for k, r in vocab.get("uris", {}).items()}
+    raw = os.path.join(pipe.dir, "raw_events.ndjson")
+    sers = {}
+    for line in open(raw):
+        try:
+            e = json.loads(line)
+        except ValueError:
+            continue
+        if e.get("ev") == "ser" and e.get("ok") and "xml" in e:
+            sers.setdefault(e["case"], []).append(e)
+    n = 0
+    for i in drv:
+        c = by_id[i]
+        if c.get("kind") != "types" or i not in sers:
+            continue
+        vdir = os.path.join(pipe.dir, "xsdval", str(i))
+        shutil.rmtree(vdir, ignore_errors=True)
+        os.makedirs(vdir)
+        for f in c["files"]:
+            src = os.path.join(dump, str(i), f["name"])
+            if not os.path.exists(src):
+                continue
+            text = open(src, encoding="utf-8").read()
+            have = {names.get(it["n"], {}).get("xml", it["n"]) for it in f["items"] if it.get("k") == "element"}
+            extra = []
+            for it in f["items"]:
+                if it.get("k") in ("complex", "simple"):
+                    xml = names.get(it["n"], {}).get("xml", it["n"])
+                    if xml not in have:
+                        extra.append(f'  <xs:element name="{xml_attr(xml)}" type="zvself:{xml_attr(xml)}" xmlns:zvself="{xml_attr(uris.get(f["tns"], f["tns"]))}"/>\n')
+            k = text.rfind("</xs:schema>")
+            open(os.path.join(vdir, f["name"]), "w", encoding="utf-8").write(text[:k] + "".join(extra) + text[k:])
+        # a driver schema that imports every file of the case, so that a root of any namespace has its declaration
+        drvxsd = os.path.join(vdir, "zv_all.xsd")
+        with open(drvxsd, "w", encoding="utf-8") as g:
+            g.write('<?xml version="1.0" encoding="UTF-8"?>\n<xs:schema xmlns:xs="http://www.w3.org/2001/XMLSchema" targetNamespace="http://zv.test/xsdval/driver">\n')
+            for f in c["files"]:
+                g.write(f'  <xs:import namespace="{xml_attr(uris.get(f["tns"], f["tns"]))}" schemaLocation="{xml_attr(f["name"])}"/>\n')
+            g.write("</xs:schema>\n")
+        for k, e in enumerate(sers[i]):
+            inst = os.path.join(vdir, f"inst_{k}.xml")
+            open(inst, "w", encoding="utf-8").write(e["xml"])
+            try:
+                p = subprocess.run([tool, "--noout", "--nonet", "--schema", drvxsd, inst], stdout=subprocess.PIPE, stderr=subprocess.PIPE, timeout=60)
+                msg = p.stderr.decode("utf-8", "replace")
+                if p.returncode not in (0, 3, 4):
+                    # 3/4 = validation error; anything else (schema does not compile, I/O) is a tool problem, not a verdict
+                    events[i].append({"ev": "xsd_tool", "root": e["root"], "plan": e["plan"], "rc": p.returncode, "msg": msg[:300]})
+                    continue
+                first = next((ln for ln in msg.splitlines() if "error" in ln), msg[:200])
+                first = re.sub(r"^.*?inst_\d+\.xml:\d+: ", "", first)
+                events[i].append({"ev": "xsd_valid", "root": e["root"], "plan": e["plan"], "valid": p.returncode == 0, "msg": first[:240]})
+                n += 1
+            except subprocess.TimeoutExpired:
+                events[i].append({"ev": "xsd_tool", "root": e["root"], "plan": e["plan"], "rc": -1, "msg": "timeout"})
+    return f"xmllint: {n} documents"
 
 
 SCENARIOS = []      # client/server scenarios printed by MC_C16 (set by the caller of run_pipeline)
